@@ -514,6 +514,11 @@ pub fn judge(case: &Case, keep_modules: bool) -> Result<Judged, String> {
                 let mut q = p.clone();
                 if p.func == 0 && !matches!(p.mode, Mode::FuncEntry | Mode::FuncExit) {
                     if p.at >= at && p.at <= end {
+                        // a probe on a construct strictly inside the removed one goes away with it:
+                        // that body is never entered, left or passed
+                        if p.at > at && matches!(p.mode, Mode::BlockEntry | Mode::BlockExit | Mode::SemanticAfter) {
+                            continue;
+                        }
                         return Err("harness: probe inside the removed construct".into());
                     }
                     if p.at > end {
@@ -919,7 +924,12 @@ fn run_families(run: &mut Run, fams: &[Family], judged_modes: &[Mode], judge_beh
                             for sp in singles.iter() {
                                 let func_level = matches!(sp.mode, Mode::FuncEntry | Mode::FuncExit);
                                 if sp.func == 0 && !func_level && sp.at >= at && sp.at <= end {
-                                    continue;
+                                    // inside: only special-mode probes on constructs strictly inside (they
+                                    // must vanish with the region); nothing on the removed opener itself
+                                    let on_construct = matches!(em.roles[0].get(sp.at), Some(Role::Block) | Some(Role::Loop) | Some(Role::If) | Some(Role::Else));
+                                    if !(sp.at > at && on_construct && matches!(sp.mode, Mode::BlockEntry | Mode::BlockExit | Mode::SemanticAfter)) {
+                                        continue;
+                                    }
                                 }
                                 removal_cases.push((vec![sp.clone()], at));
                             }
@@ -996,6 +1006,26 @@ fn run_families(run: &mut Run, fams: &[Family], judged_modes: &[Mode], judge_beh
     crate::nodebridge::cross_validate(run, &node_batch);
 }
 
+/// two sibling constructs of main, each holding one nested construct (so that a construct inside the
+/// first and one inside the second sit at the same nesting depth), in both orders
+fn sibling_nests() -> Vec<Program> {
+    let inner = || vec![Stmt::If(Cond::A, vec![Stmt::Mark], Some(vec![Stmt::Mark])), Stmt::If(Cond::A, vec![Stmt::Mark], None), Stmt::Block(vec![Stmt::Mark]), Stmt::Loop(vec![Stmt::Mark])];
+    let mut out = vec![];
+    for k1 in inner() {
+        for o1 in 0..2 {
+            let first = if o1 == 0 { Stmt::Block(vec![k1.clone()]) } else { Stmt::Loop(vec![k1.clone()]) };
+            for k2 in inner() {
+                for o2 in 0..2 {
+                    let second = if o2 == 0 { Stmt::Block(vec![k2.clone()]) } else { Stmt::If(Cond::B, vec![k2.clone()], None) };
+                    out.push(Program { results: 0, main: vec![first.clone(), second.clone()], callee: vec![] });
+                    out.push(Program { results: 0, main: vec![second, first.clone()], callee: vec![] });
+                }
+            }
+        }
+    }
+    out
+}
+
 const CONDS: &[Cond] = &[Cond::A, Cond::B, Cond::Ctr];
 
 fn callee_variants() -> Vec<Vec<Stmt>> {
@@ -1054,6 +1084,7 @@ pub fn check(id: &'static str, tier: Tier) -> i32 {
             fams.push(Family { name: "block-entry probe with a probe of another special mode on the same function", programs: programs(&gr, &callees), modes: modes.clone(), probes: 1, same_site_twice: false, with_ordinary: false, companions: vec![Mode::BlockExit, Mode::SemanticAfter, Mode::FuncEntry, Mode::FuncExit], removals: false });
             let gr = g(tier.pick(3, 4), 3, &[Mark, Br, BrIf], true, true, true, true, &[Cond::A], 0);
             fams.push(Family { name: "block-entry probe beside a construct removed through an empty block alternate", programs: programs(&gr, &callees), modes: modes.clone(), probes: 1, same_site_twice: false, with_ordinary: false, companions: vec![], removals: true });
+            fams.push(Family { name: "block-entry probe in or beside a removed construct, sibling nests of equal depth", programs: sibling_nests(), modes: modes.clone(), probes: 1, same_site_twice: false, with_ordinary: false, companions: vec![], removals: true });
             (fams, modes, true)
         }
         "C19" => {
@@ -1066,6 +1097,7 @@ pub fn check(id: &'static str, tier: Tier) -> i32 {
             fams.push(Family { name: "block-exit probe with a probe of another special mode on the same function", programs: programs(&gr, &callees), modes: modes.clone(), probes: 1, same_site_twice: false, with_ordinary: false, companions: vec![Mode::BlockEntry, Mode::SemanticAfter, Mode::FuncEntry, Mode::FuncExit], removals: false });
             let gr = g(tier.pick(3, 4), 3, &[Mark, Br, BrIf], true, true, true, true, &[Cond::A], 0);
             fams.push(Family { name: "block-exit probe beside a construct removed through an empty block alternate", programs: programs(&gr, &callees), modes: modes.clone(), probes: 1, same_site_twice: false, with_ordinary: false, companions: vec![], removals: true });
+            fams.push(Family { name: "block-exit probe in or beside a removed construct, sibling nests of equal depth", programs: sibling_nests(), modes: modes.clone(), probes: 1, same_site_twice: false, with_ordinary: false, companions: vec![], removals: true });
             (fams, modes, true)
         }
         "C20" => {
@@ -1088,13 +1120,14 @@ pub fn check(id: &'static str, tier: Tier) -> i32 {
             }
             let gr = g(tier.pick(3, 4), 3, &[Mark, Br, BrIf], true, true, true, true, &[Cond::A], 0);
             fams.push(Family { name: "semantic-after probe beside a construct removed through an empty block alternate", programs: programs(&gr, &callees), modes: modes.clone(), probes: 1, same_site_twice: false, with_ordinary: false, companions: vec![], removals: true });
+            fams.push(Family { name: "semantic-after probe in or beside a removed construct, sibling nests of equal depth", programs: sibling_nests(), modes: modes.clone(), probes: 1, same_site_twice: false, with_ordinary: false, companions: vec![], removals: true });
             (fams, modes, true)
         }
         _ => unreachable!(),
     };
     let nprog: usize = fams.iter().map(|f| f.programs.len()).sum();
     run.rule = format!(
-        "programs = ALL function bodies of the statement grammar (mark, nop, block, counted loop, if/else, br, br_if, br_table, return, unreachable, throw, call, return_call, global.set, store, trapping div; conditions over param a, param b, innermost loop counter) within the node/nesting bounds of each family ({} programs in {} families), smallest first; plans = ALL sets of <= p probes (`i32.const id; call $probe`) over the applicable (instruction, mode) pairs of the family's modes, applied through the module iterator and the function modifier alternately; every (program, plan) is instrumented by the real library, validated, and executed on all 9 inputs (a,b) in {{0,1,2}}^2 by the reference interpreter: results/trap, globals, memory and the mark sequence must equal the original's, and in every gap between marks the multiset of probe firings must equal what the monitor (DESIGN.md appendix A) derives from the original's execution. Families 'beside a construct removed': one probe plus one void block / loop of main that does not contain it removed through an empty block alternate (every such pair, four call orders / API kinds rotated); the reference is then the program WITHOUT that construct (cut out of the body bytes, wirm not involved), probed at the corresponding place. Non-trivial class = multiset of (mode, instruction role) of the plan.",
+        "programs = ALL function bodies of the statement grammar (mark, nop, block, counted loop, if/else, br, br_if, br_table, return, unreachable, throw, call, return_call, global.set, store, trapping div; conditions over param a, param b, innermost loop counter) within the node/nesting bounds of each family ({} programs in {} families), smallest first; plans = ALL sets of <= p probes (`i32.const id; call $probe`) over the applicable (instruction, mode) pairs of the family's modes, applied through the module iterator and the function modifier alternately; every (program, plan) is instrumented by the real library, validated, and executed on all 9 inputs (a,b) in {{0,1,2}}^2 by the reference interpreter: results/trap, globals, memory and the mark sequence must equal the original's, and in every gap between marks the multiset of probe firings must equal what the monitor (DESIGN.md appendix A) derives from the original's execution. Families 'beside a construct removed': one probe plus one void block / loop of main removed (the probe anywhere outside it, or - block-entry / block-exit / semantic-after on a construct strictly inside it - expected never to fire) through an empty block alternate (every such pair, four call orders / API kinds rotated); the reference is then the program WITHOUT that construct (cut out of the body bytes, wirm not involved), probed at the corresponding place. Non-trivial class = multiset of (mode, instruction role) of the plan.",
         nprog,
         fams.len()
     );
